@@ -1,6 +1,7 @@
 package main
 
 import (
+	"syscall"
 	"bytes"
 	"context"
 	"fmt"
@@ -37,8 +38,10 @@ func runSolver(ctx context.Context, solver string, file string, timeoutMs int) (
 	case "z3":
 		cmd = exec.CommandContext(ctx, "z3", fmt.Sprintf("-T:%d", secs), fmt.Sprintf("-t:%d", timeoutMs), file)
 	case "cvc5":
-		cmd = exec.CommandContext(ctx, "cvc5", "--incremental", fmt.Sprintf("--tlimit-per=%d", timeoutMs), file)
+		cmd = exec.CommandContext(ctx, "cvc5", "--incremental", fmt.Sprintf("--tlimit-per=%d", timeoutMs), fmt.Sprintf("--tlimit=%d", timeoutMs+2000), file)
 	}
+	// solvers must not outlive this process (an interrupted check would otherwise leave them spinning)
+	cmd.SysProcAttr = &syscall.SysProcAttr{Pdeathsig: syscall.SIGKILL}
 	var out bytes.Buffer
 	cmd.Stdout = &out
 	cmd.Stderr = &out
@@ -158,7 +161,7 @@ func Solve(f *FuncVC, opts SolveOpts) []*Verdict {
 }
 
 func raceOne(f *FuncVC, o *Oblig, first *Verdict, opts SolveOpts) *Verdict {
-	script := f.Script([]*Oblig{o}, opts.TimeoutMs*2, false)
+	script := f.ScriptOne(o, opts.TimeoutMs*2)
 	file := writeScript(opts.WorkDir, sanitizeFile(f.Name)+"_one", script)
 	defer os.Remove(file)
 	type res struct {
